@@ -1,5 +1,5 @@
 """C13 — size limits and block-size choice: the borders (structural clauses only)."""
-from ..rules import generator as gen, engine, piece, casts, summary, beliefs
+from ..rules import generator as gen, engine, piece, casts, summary, beliefs, data
 
 EXPL = ("Decides the *borders* named in the property from the exact branch conditions in MIR with rustc-evaluated constants: "
         "set_fixed_input_size refuses exactly size > 192 GiB (206158430208); finalisation returns InputSizeTooLarge exactly for "
@@ -41,6 +41,7 @@ def run(ctx):
             base = ctx.prog("rel")
             ctx.guard("C13", "mirror", lambda: engine.mirror(ctx, prog))
             ctx.guard("C13", "enginemap", lambda: engine.engine_correspondence(ctx, base, prog))
+        ctx.guard("C13", "const values", lambda: data.const_census(ctx, prog, data.CONST_SCOPES["C13"], floor=1))
         ctx.guard("C13", "summaries", lambda: summary.check(ctx, prog, 'internals::generate::Generator', floor=5))
         ctx.guard("C13", "path summaries", lambda: summary.check_paths(ctx, prog, 'internals::generate::Generator', floor=2))
         if c in ("dbg", "unsafe_dbg", "strict_dbg"):
